@@ -1,4 +1,5 @@
 import HotstuffModel.Model.Committee
+import HotstuffModel.Generated.Guards
 /-
 Model of `mempool::quorum_waiter::QuorumWaiter` (/repo/mempool/src/quorum_waiter.rs).
 
@@ -115,7 +116,7 @@ the first point where the threshold is reached, if any. -/
 def crossing (q : Nat) : Nat → List H → Option (List H)
   | _, [] => none
   | total, h :: rest =>
-    if q ≤ total + h.stake then some [h]
+    if Gen.waiterQuorum (total + h.stake) q then some [h]
     else (crossing q (total + h.stake) rest).map (h :: ·)
 
 /-- Take a message from the channel: its already completed handlers are counted in order. -/
@@ -151,7 +152,7 @@ def step (cfg : Cfg) (s : State) : Ev → State × List Out
         match mark i c.hs with
         | none => (s, [])
         | some (h, hs') =>
-          if cfg.q ≤ c.total + h.stake then
+          if Gen.waiterQuorum (c.total + h.stake) cfg.q then
             let r := advance cfg.own cfg.q s.queue
             (⟨r.1, r.2.1⟩, .forward id (ackers hs') :: r.2.2)
           else if hs'.all (·.done) then
